@@ -381,3 +381,68 @@ func H08seq() {
 		}
 	}
 }
+
+// H08tri: three deviate statements in ONE deviation statement whose kinds interleave and whose
+// effects do not commute: they take effect in their written order.
+func H08tri() {
+	base := `module m { namespace "urn:m"; prefix m; leaf x { type string; default "a"; } }`
+	opts := []string{
+		`deviate add { units "u"; } `,
+		`deviate delete { default "a"; } `,
+		`deviate add { default "b"; } `,
+		`deviate replace { default "c"; } `,
+		`deviate delete { default "b"; } `,
+		`deviate replace { units "v"; } `,
+		`deviate delete { default "c"; } `,
+	}
+	var seq []int
+	text := ""
+	for i := 0; i < 3; i++ {
+		k := symChoice(len(opts))
+		seq = append(seq, k)
+		text += opts[k]
+	}
+	dev := `module d { namespace "urn:d"; prefix d; import m { prefix m; } deviation /m:x { ` + text + `} }`
+	note(dev)
+	ms, lerrs := hLoad(base, dev)
+	check(len(lerrs) == 0, "modules parse")
+	errs := ms.Process()
+	def, units := "a", ""
+	mustErr := false
+	for _, k := range seq {
+		switch k {
+		case 0:
+			units = "u"
+		case 1, 4, 6:
+			want := []string{"", "a", "", "", "b", "", "c"}[k]
+			if def != want {
+				mustErr = true
+			} else {
+				def = ""
+			}
+		case 2:
+			if def != "" {
+				mustErr = true
+			} else {
+				def = "b"
+			}
+		case 3:
+			def = "c"
+		case 5:
+			units = "v"
+		}
+		if mustErr {
+			break
+		}
+	}
+	if len(errs) > 0 {
+		reach("rejected")
+		check(mustErr, "deviate statements that can be applied in their written order are applied without error")
+		return
+	}
+	reach("applied")
+	check(!mustErr, "a deviate statement that cannot be applied at its place in the written order is reported")
+	x := ToEntry(ms.Modules["m"]).Dir["x"]
+	check((def == "" && len(x.Default) == 0) || (len(x.Default) == 1 && x.Default[0] == def), "several deviate statements on one target take effect in their written order (default)")
+	check(x.Units == units, "several deviate statements on one target take effect in their written order (units)")
+}
